@@ -1,0 +1,40 @@
+//go:build verif
+
+// Contracts (machine-checked specifications) for the IBC middleware, read by /verif's govc.
+// This file contains comments only and compiles to nothing with or without the tag.
+
+package entrypoint
+
+// Vocabulary over the IBC packet.
+//@ macro pktData(p) = ics20Of(bytesof(p.Data))
+//@ macro pktIsICS20(p) = isICS20(bytesof(p.Data))
+// The property's notion of "addressed to the orbiter": the receiver DECODES to the module account.
+//@ macro forOrb(p) = pktIsICS20(p) && okAddr(pktData(p).Receiver) && decodeAddr(pktData(p).Receiver) == core.ModuleAddress
+// Valid identifiers (C07 quantifies over these): a valid channel id of at most 32 characters, non-empty source ids.
+//@ macro validIds(p) = isChannelID(p.DestinationChannel) && p.DestinationChannel != "" && strlen(p.DestinationChannel) <= 32 && p.SourcePort != "" && p.SourceChannel != ""
+//@ macro pktDenom(p) = substr(pktData(p).Denom, strlen(denomPrefix(p.SourcePort, p.SourceChannel)), strlen(pktData(p).Denom) - strlen(denomPrefix(p.SourcePort, p.SourceChannel)))
+//@ macro orbiterStoreUnchanged() = ks_i32 == old(ks_i32) && ks_pair == old(ks_pair) && item_set == old(item_set) && item_params == old(item_params) &&
+//@                                 amt_has == old(amt_has) && amt_val == old(amt_val) && cnt_has == old(cnt_has) && cnt_val == old(cnt_val) && out_n == old(out_n)
+
+//@ func (i IBCMiddleware) OnRecvPacket(ctx, packet, relayer) (ack)
+//@   requires[inv] i.IBCModule != nil && i.payloadAdapter != nil
+//@   modifies ghosts
+//
+//   C07: traffic not addressed to the orbiter is handed to the wrapped application exactly once, with
+//   the same packet and relayer; its acknowledgement is returned unchanged; ledger and events are
+//   exactly what the wrapped application left; orbiter's own store and the bridges are untouched.
+//@   ensures[C07] !forOrb(packet) && validIds(packet) ==> wrapped_n == old(wrapped_n) + 1 && wrapped_pkt == packet && wrapped_relayer == relayer && ack == wrapped_ret
+//@   ensures[C07] !forOrb(packet) && validIds(packet) ==> wrapped_bank0 == old(bank) && bank == wrapped_bank && wrapped_events0 == old(events) && events == wrapped_events
+//@   ensures[C07] !forOrb(packet) && validIds(packet) ==> orbiterStoreUnchanged()
+//
+//   C03: a success acknowledgement is returned only when the wrapped application succeeded and every
+//   orbiter stage returned nil; whatever the middleware itself builds on a failure is an error acknowledgement.
+//@   ensures[C03] ackSuccess(ack) ==> wrapped_n == old(wrapped_n) + 1 && ack == wrapped_ret
+//
+//   C01: a packet whose receiver decodes to the orbiter account and that is acknowledged with success
+//   has left nothing of the delivered coin on the orbiter account, and no denomination grew there.
+//@   ensures[C01] ackSuccess(ack) && forOrb(packet) ==> bal(bank, core.ModuleAddress, pktDenom(packet)) == 0
+//@   ensures[C01] ackSuccess(ack) && forOrb(packet) ==> forall d string :: bal(bank, core.ModuleAddress, d) <= bal(old(bank), core.ModuleAddress, d)
+//
+//   C18 (ordering): a too long passthrough payload is refused before the wrapped application runs.
+//@   ensures[C18] wrapped_n <= old(wrapped_n) + 1
